@@ -806,7 +806,11 @@ func runBinding(c *kit.Ctx) {
 		idx++
 		return m
 	}
-	for i := 0; i < c.N(2400, 60000); i++ {
+	ncred := c.N(4000, 90000)
+	if c.Mode == "asan" && !c.Quick() {
+		ncred /= 3 // ASan costs ~5x per credential; the sanitizer needs coverage of the cgo paths, not volume
+	}
+	for i := 0; i < ncred; i++ {
 		id := fmt.Sprintf("b/cred/%d", i)
 		if !next(id) {
 			continue
@@ -815,6 +819,9 @@ func runBinding(c *kit.Ctx) {
 		cr := genCredParams(r, 0.05, 400)
 		c.Begin(id, cr.in)
 		sig := runCredential(c, r, cr)
+		if sig != "" && cr.j >= 1 {
+			c.Sample(map[string]interface{}{"issued_for": cr.in, "value": cr.value.Hex(), "seats": cr.j, "p": cr.p})
+		}
 		c.End(sig)
 	}
 	for i := 0; i < c.N(48, 600); i++ {
